@@ -152,7 +152,7 @@ def run(ctx):
                     "empty text, 取样 (characters i..j inside 1<=i<=j<=len; elsewhere a catchable error or a run of whole characters), Join(Split(s,sep),sep)=s and the "
                     "spec's pieces for one separator per class; format: all templates <= %d over {text,blank,{,},#,+,.,0,2,E,%%} (the blank as space, TAB, LF, CR, CRLF, U+3000, NBSP ...; every single placeholder with a directive of up to 5 (6) directive symbols; one-placeholder templates with each of 20 numbers incl. products with 100 next to a rounding tie, tiny and huge magnitudes) scanned by the spec machine (segments, "
                     "directive plan or error) x 4 argument shapes (numbers, other plain values, one short, one long): result text or error must agree; numeric digits are "
-                    "strconv's for the verb/precision/sign the spec selected (quick: seeded 30000 text and 40000 template vectors)" % (5 if quick else 6),
+                    "strconv's for the verb/precision/sign the spec selected (quick: seeded 30000 text and 40000 template vectors)" % (5 if quick else 5),
                text_vectors=len(tcases), fmt_vectors=len(fcases), fmt_runs=nruns)
     cov.update(cov_extra)
     return cov, ["digit-exact rendering of arbitrary doubles is delegated to strconv.FormatFloat for the verb/precision the spec selects (DESIGN section 6)",
